@@ -1601,6 +1601,26 @@ package gedcom
 //@   oncall Node.Nodes check left-side: implies(isLeft, nd.Right == old(nd.Right) && nd.Left == ite(old(nd.Left) == nil, n, old(nd.Left)))
 //@   oncall Node.Nodes check right-side: implies(!isLeft, nd.Left == old(nd.Left) && nd.Right == ite(old(nd.Right) == nil, n, old(nd.Right)))
 //@   oncall NodeDiff.traverse check same-side: arg1 == child && arg2 == isLeft
+// C08 (coverage): every child of n is handed on exactly once - to the first
+// entry one of whose nodes Equals it (asked just before, about this child), or
+// to a new entry, which is then appended to the entries. (Not expressed: that
+// nothing is appended for a child that found its entry - the recursive call
+// has no frame.)
+//@   ghost nTrav int = 0
+//@   ghost eq bool = false
+//@   ghost eqOn iface
+//@   ghost made int = 0
+//@   oncall Node.Equals check about-the-child: arg1 == child
+//@   oncall Node.Equals do eq = result; eqOn = arg0
+//@   oncall NodeDiff.traverse#1 check to-the-entry-whose-left-equals: eq && arg0 == diffChild && eqOn == diffChild.Left
+//@   oncall NodeDiff.traverse#2 check to-the-entry-whose-right-equals: eq && arg0 == diffChild && eqOn == diffChild.Right
+//@   oncall NodeDiff.traverse#3 check to-a-new-entry: fresh(arg0)
+//@   oncall NodeDiff.traverse#3 do made = arg0
+//@   oncall NodeDiff.traverse do nTrav = nTrav + 1
+//@   loop 2 invariant not-handled-yet: nTrav == outer(nTrav)
+//@   loop 1 iter every-child-once: nTrav == old(nTrav) + 1
+//@   loop 1 iter new-entry-kept: implies(nd != nil && made != old(made), len(nd.Children) >= 1 && nd.Children[len(nd.Children)-1] == made)
+//@   loop 1 nobreak
 
 // C07 (matching step of the order-insensitive comparison): a right-hand slot
 // is taken only by a left node that is deeply equal to it, at most one slot
@@ -1742,8 +1762,10 @@ package gedcom
 //@   ensures view-forgotten: !node.cachedWife
 //
 // When the husband (or wife) of a family is removed, the family's own cached
-// view says so - computed and empty, so a later Husband() cannot hand back a
-// stale node - and the document's caches are reset after the line is gone.
+// view is either forgotten (recomputed later from the current lines - sound
+// since DeleteNode resets the children-by-tag cache) or computed-and-empty, so
+// a later Husband() cannot hand back the removed line; and the document's
+// caches are reset after the line is gone.
 //@ func FamilyNode.SetHusband
 //@   props C13
 //@   ghost removed bool = false
@@ -1752,7 +1774,7 @@ package gedcom
 //@   oncall DeleteNodesWithTag do removed = true
 //@   oncall FamilyNode.resetDocumentCaches check after-the-edit: arg0 == node && removed
 //@   oncall FamilyNode.resetDocumentCaches do nReset = nReset + 1
-//@   ensures view-cleared: implies(removed, node.cachedHusband && node.husband == nil)
+//@   ensures view-forgotten-or-empty: implies(removed, !node.cachedHusband || node.husband == nil)
 //@   ensures individuals-forget: implies(removed, nReset >= 1)
 //@ func FamilyNode.SetWife
 //@   props C13
@@ -1762,7 +1784,7 @@ package gedcom
 //@   oncall DeleteNodesWithTag do removed = true
 //@   oncall FamilyNode.resetDocumentCaches check after-the-edit: arg0 == node && removed
 //@   oncall FamilyNode.resetDocumentCaches do nReset = nReset + 1
-//@   ensures view-cleared: implies(removed, node.cachedWife && node.wife == nil)
+//@   ensures view-forgotten-or-empty: implies(removed, !node.cachedWife || node.wife == nil)
 //@   ensures individuals-forget: implies(removed, nReset >= 1)
 //
 // Adding an individual resets every individual's caches, adding a family every
